@@ -1057,6 +1057,11 @@ func (p *Proof) Undo(numAdds, numLeaves uint64, dels []uint64,
 // pruneEdges prunes all the positions that cannot exist in the prevForestRows.
 func pruneEdges(hnp hashAndPos, numAdds, numLeaves uint64, forestRows, prevForestRows uint8) (hashAndPos, error) {
 	prevTargetsWithHash := hashAndPos{make([]uint64, 0, hnp.Len()), make([]Hash, 0, hnp.Len())}
+
+	// Nothing can exist in a forest that had no leaves.
+	if numLeaves == numAdds {
+		return prevTargetsWithHash, nil
+	}
 	for i, target := range hnp.positions {
 		// Save the current row.
 		row := DetectRow(target, forestRows)
